@@ -45,6 +45,8 @@ HOSTILE_PATS = {
     r'a\/b': ['a/b'],
     'x\\ny': ['x\ny'],
     r'[\'"]': ["'", '"'],
+    '[^\t\n]+': ['a b', 'x'],        # a LITERAL tab and newline inside the character class
+    'a\tb': ['a\tb'],                # a literal tab in the pattern
 }
 KWLIKE = ['if', 'class', 'print', 'match', 'type', '_', 'def', 'None_', 'list', 'self']
 
@@ -105,7 +107,7 @@ def gen_case(rng):
     if rng.random() < 0.35:
         d = {}
         if rng.random() < 0.3:
-            d['whitespace'] = rng.choice([r'[ ]+', r'[\t ]+', ''])
+            d['whitespace'] = rng.choice([r'[ ]+', r'[\t ]+', '', '[\t ]+', '[\t]+'])   # the last two hold a literal tab
         if rng.random() < 0.3:
             d['nameguard'] = rng.choice(['True', 'False'])
         if rng.random() < 0.2:
@@ -367,7 +369,9 @@ def run_shard(desc, acc):
         rng = random.Random(h64('C02', desc['seed'], desc['shard'], i))
         g, features, saved = gen_case(rng)
         try:
-            texts = G.gen_inputs(rng, g, g.rules[0].name, desc['inputs'], alphabet="abc ,'\"AB\\/")
+            texts = G.gen_inputs(rng, g, g.rules[0].name, desc['inputs'], alphabet="abc ,'\"AB\\/\t")
+            if rng.random() < 0.25:
+                texts = [t.replace(' ', '\t') if rng.random() < 0.5 else t for t in texts]
             if rng.random() < 0.3:
                 texts = [t.upper() if rng.random() < 0.5 else t for t in texts]
             check_pair(acc, g, texts, {'shard': desc['shard'], 'i': i}, features)
